@@ -321,6 +321,131 @@ fn struct_from_str(ast: &DeriveInput, ts: proc_macro2::TokenStream) -> Result<St
     Ok(format!("phf=[{}]|arms=[{}]|fall={}|errty={}|tryfrom={}", phf.join(";"), arms.join(";"), fall, ety, if tryfrom_ok { "delegates" } else { "other" }))
 }
 
+// ---------------------------------------------------------------------------------------------------
+// structural summary of the generated EnumIter code: the method bodies translated token by token into the
+// deep-embedded language of coq/Model/IterProg.v, and the constructor table of `get`
+// ---------------------------------------------------------------------------------------------------
+fn ix(e: &syn::Expr) -> Result<String, String> {
+    match e {
+        syn::Expr::Paren(p) => ix(&p.expr),
+        syn::Expr::Field(f) => {
+            if !matches!(&*f.base, syn::Expr::Path(p) if p.path.is_ident("self")) { return Err("field of something other than self".into()); }
+            match &f.member { syn::Member::Named(n) if n == "idx" => Ok("idx".into()), syn::Member::Named(n) if n == "back_idx" => Ok("back".into()), _ => Err("unknown field".into()) }
+        }
+        syn::Expr::Path(p) => p.path.get_ident().map(|i| format!("${}", i)).ok_or_else(|| "non-local path in arithmetic".to_string()),
+        syn::Expr::Lit(l) => match &l.lit { syn::Lit::Int(i) => Ok(i.base10_digits().to_string()), _ => Err("non-integer literal".into()) },
+        syn::Expr::Binary(b) => {
+            let op = match b.op { syn::BinOp::Add(_) => "add", syn::BinOp::Sub(_) => "sub", _ => return Err("unsupported arithmetic operator".into()) };
+            Ok(format!("({} {} {})", op, ix(&b.left)?, ix(&b.right)?))
+        }
+        syn::Expr::MethodCall(m) if m.method == "saturating_add" && m.args.len() == 1 => Ok(format!("(sat {} {})", ix(&m.receiver)?, ix(&m.args[0])?)),
+        _ => Err("unsupported arithmetic expression".into()),
+    }
+}
+fn icond(e: &syn::Expr) -> Result<String, String> {
+    match e {
+        syn::Expr::Paren(p) => icond(&p.expr),
+        syn::Expr::Binary(b) => {
+            let op = match b.op { syn::BinOp::Gt(_) => "gt", syn::BinOp::Ge(_) => "ge", _ => return Err("unsupported comparison".into()) };
+            Ok(format!("({} {} {})", op, ix(&b.left)?, ix(&b.right)?))
+        }
+        _ => Err("unsupported condition".into()),
+    }
+}
+fn is_none_expr(e: &syn::Expr) -> bool { matches!(e, syn::Expr::Path(p) if p.path.segments.last().map(|s| s.ident == "None").unwrap_or(false)) }
+fn istmts(stmts: &[syn::Stmt]) -> Result<String, String> {
+    let (first, rest) = stmts.split_first().ok_or("empty block")?;
+    match first {
+        syn::Stmt::Local(l) => {
+            let name = match &l.pat { syn::Pat::Ident(p) => p.ident.to_string(), _ => return Err("let with a pattern".into()) };
+            let init = &l.init.as_ref().ok_or("let without initialiser")?.expr;
+            // `let t = if c { a } else { b }; (t, Some(t))`  is read as  (if c (hint a) (hint b))
+            if let syn::Expr::If(i) = &**init {
+                if rest.len() == 1 {
+                    if let syn::Stmt::Expr(syn::Expr::Tuple(t), None) = &rest[0] {
+                        let fst_ok = t.elems.len() == 2 && matches!(&t.elems[0], syn::Expr::Path(p) if p.path.is_ident(&name));
+                        let snd_ok = t.elems.len() == 2 && matches!(&t.elems[1], syn::Expr::Call(c) if c.args.len() == 1 && matches!(&c.args[0], syn::Expr::Path(p) if p.path.is_ident(&name))
+                                                                      && matches!(&*c.func, syn::Expr::Path(p) if p.path.segments.last().map(|s| s.ident == "Some").unwrap_or(false)));
+                        if fst_ok && snd_ok {
+                            let tail = |b: &syn::Block| -> Result<String, String> { match b.stmts.as_slice() { [syn::Stmt::Expr(e, None)] => Ok(format!("(hint {})", ix(e)?)), _ => Err("if-expression branch is not a single expression".into()) } };
+                            let els = match &i.else_branch { Some((_, e)) => match &**e { syn::Expr::Block(b) => tail(&b.block)?, _ => return Err("else is not a block".into()) }, None => return Err("if without else".into()) };
+                            return Ok(format!("(if {} {} {})", icond(&i.cond)?, tail(&i.then_branch)?, els));
+                        }
+                    }
+                }
+                return Err("let bound to an if-expression in an unsupported position".into());
+            }
+            Ok(format!("(let {} {} {})", name, ix(init)?, istmts(rest)?))
+        }
+        syn::Stmt::Expr(syn::Expr::Assign(a), Some(_)) => {
+            let tgt = ix(&a.left)?;
+            let kw = if tgt == "idx" { "setidx" } else if tgt == "back" { "setback" } else { return Err("assignment to something other than a cursor".into()) };
+            Ok(format!("({} {} {})", kw, ix(&a.right)?, istmts(rest)?))
+        }
+        syn::Stmt::Expr(e, None) if rest.is_empty() => match e {
+            syn::Expr::If(i) => {
+                let els = match &i.else_branch { Some((_, e)) => match &**e { syn::Expr::Block(b) => istmts(&b.block.stmts)?, _ => return Err("else is not a block".into()) }, None => return Err("if without else".into()) };
+                Ok(format!("(if {} {} {})", icond(&i.cond)?, istmts(&i.then_branch.stmts)?, els))
+            }
+            x if is_none_expr(x) => Ok("none".to_string()),
+            syn::Expr::Call(c) if c.args.len() == 2 && matches!(&*c.func, syn::Expr::Path(p) if p.path.segments.last().map(|s| s.ident == "get").unwrap_or(false))
+                                  && matches!(&c.args[0], syn::Expr::Path(p) if p.path.is_ident("self")) => Ok(format!("(get {})", ix(&c.args[1])?)),
+            _ => Err("unsupported tail expression".into()),
+        },
+        _ => Err("unsupported statement".into()),
+    }
+}
+fn struct_iter(ast: &DeriveInput, ts: proc_macro2::TokenStream) -> Result<String, String> {
+    let f: syn::File = syn::parse2(ts).map_err(|e| format!("tokens do not parse: {}", e))?;
+    let mut out: std::collections::BTreeMap<&'static str, String> = std::collections::BTreeMap::new();
+    for it in &f.items {
+        if let syn::Item::Impl(im) = it {
+            for ii in &im.items {
+                if let syn::ImplItem::Fn(m) = ii {
+                    let name = m.sig.ident.to_string();
+                    match name.as_str() {
+                        "nth" => { out.insert("nth", istmts(&m.block.stmts)?); }
+                        "next_back" => { out.insert("next_back", istmts(&m.block.stmts)?); }
+                        "size_hint" => { out.insert("size_hint", istmts(&m.block.stmts)?); }
+                        "next" => {
+                            let ok = matches!(m.block.stmts.as_slice(), [syn::Stmt::Expr(syn::Expr::MethodCall(c), None)] if c.method == "nth" && c.args.len() == 1
+                                && matches!(&*c.receiver, syn::Expr::Path(p) if p.path.is_ident("self")) && matches!(&c.args[0], syn::Expr::Lit(l) if matches!(&l.lit, syn::Lit::Int(i) if i.base10_digits() == "0")));
+                            out.insert("next", if ok { "nth0".to_string() } else { return Err("next is not self.nth(0)".into()) });
+                        }
+                        "len" => {
+                            let ok = matches!(m.block.stmts.as_slice(), [syn::Stmt::Expr(syn::Expr::Field(fl), None)] if matches!(&fl.member, syn::Member::Unnamed(i) if i.index == 0)
+                                && matches!(&*fl.base, syn::Expr::MethodCall(c) if c.method == "size_hint" && c.args.is_empty()));
+                            out.insert("len", if ok { "hint0".to_string() } else { return Err("len is not self.size_hint().0".into()) });
+                        }
+                        "get" => {
+                            let arms = match m.block.stmts.as_slice() { [syn::Stmt::Expr(syn::Expr::Match(mm), None)] => &mm.arms, _ => return Err("get is not a single match".into()) };
+                            let mut tbl: Vec<String> = Vec::new();
+                            let mut expect = 0usize;
+                            for a in arms {
+                                match &a.pat {
+                                    syn::Pat::Lit(l) => {
+                                        let k: usize = match &l.lit { syn::Lit::Int(i) => i.base10_parse().map_err(|_| "bad index literal")?, _ => return Err("non-integer index".into()) };
+                                        if k != expect { return Err(format!("get arms are not numbered densely (found {} where {} was expected)", k, expect)); }
+                                        expect += 1;
+                                        let inner = strip_result(&a.body, "Some").ok_or("get arm is not Some(..)")?;
+                                        tbl.push(target_of(ast, &inner)?);
+                                    }
+                                    syn::Pat::Wild(_) => { if !is_none_expr(&a.body) { return Err("wildcard arm of get is not None".into()); } }
+                                    _ => return Err("unsupported get arm".into()),
+                                }
+                            }
+                            out.insert("table", format!("[{}]", tbl.join(";")));
+                        }
+                        _ => {}
+                    }
+                }
+            }
+        }
+    }
+    let g = |k: &str| out.get(k).cloned().unwrap_or_else(|| "missing".to_string());
+    Ok(format!("nth={}|next_back={}|size_hint={}|next={}|len={}|table={}", g("nth"), g("next_back"), g("size_hint"), g("next"), g("len"), g("table")))
+}
+
 fn fnv(h: &mut u64, s: &str) { for b in s.bytes() { *h ^= b as u64; *h = h.wrapping_mul(0x100000001b3); } *h ^= 10; *h = h.wrapping_mul(0x100000001b3); }
 
 fn valid_ident(s: &str) -> bool {
@@ -384,6 +509,8 @@ fn main() {
                             Ok(Err(e)) => format!("err:{}", hex(&e.to_string())),
                             Ok(Ok(ts)) => match derive.as_str() {
                                 "EnumString" => match std::panic::catch_unwind(std::panic::AssertUnwindSafe(|| struct_from_str(&ast, ts))) {
+                                    Ok(Ok(s)) => s, Ok(Err(m)) => format!("unparsed:{}", m), Err(_) => "unparsed:panic in the token reader".to_string() },
+                                "EnumIter" => match std::panic::catch_unwind(std::panic::AssertUnwindSafe(|| struct_iter(&ast, ts))) {
                                     Ok(Ok(s)) => s, Ok(Err(m)) => format!("unparsed:{}", m), Err(_) => "unparsed:panic in the token reader".to_string() },
                                 _ => "unparsed:no structural reader for this derive".to_string(),
                             },
